@@ -118,7 +118,7 @@ def pipeline(tier, rep, calibrate=True, walk=True):
     """calibrate=False / walk=False exist only for the mutation self-test (tools/props/C11.py, VERIF_SELFTEST=1):
     they skip the libstdc++ calibration and the model checking of the walker, not any judgement of etl."""
     t0 = time.time()
-    nparts = 8 if tier == "quick" else 12
+    nparts = 8 if tier == "quick" else 16       # trace files; at most 8 TLC instances (2 GB heap each) at a time
     with ThreadPoolExecutor(max_workers=2) as bg:
         walker = bg.submit(model_walker, tier, rep) if walk else None   # MC of the walker runs beside the binding
         ar = model_arith(tier)
@@ -129,7 +129,7 @@ def pipeline(tier, rep, calibrate=True, walk=True):
         bins = build_drivers(flags)
         parts = split_inputs(gen, nparts, tier)
         traces, unsupported = execute(bins, "etl", parts, tier)
-        tv = vlib.tv_parallel("CalendarTrace.tla", "CalendarTrace.cfg", traces, "calendar_tv_etl_" + tier, par=nparts, heap="2g")
+        tv = vlib.tv_parallel("CalendarTrace.tla", "CalendarTrace.cfg", traces, "calendar_tv_etl_" + tier, par=8, heap="2g")
         rep.add_tv("Calendar", tv, len(gen))
         not_drivable = sorted(set(unsupported) | {"probe " + k + " does not compile/link" for k, v in probes.items() if not v})
         rep.cov["modules"]["Calendar"].update({"not_drivable": not_drivable, "probes": probes,
@@ -141,7 +141,7 @@ def pipeline(tier, rep, calibrate=True, walk=True):
             rep.sample({"module": "Calendar", "input": [g for g in gen if g["fam"] == "ym_m"][len(gen) // 7]})
         if calibrate:
             ctr, _ = execute(bins, "std", parts, tier)
-            ctv = vlib.tv_parallel("CalendarTrace.tla", "CalendarTrace.cfg", ctr, "calendar_tv_std_" + tier, par=nparts, heap="2g")
+            ctv = vlib.tv_parallel("CalendarTrace.tla", "CalendarTrace.cfg", ctr, "calendar_tv_std_" + tier, par=8, heap="2g")
             if ctv["deviations"]:
                 d = ctv["deviations"][0]
                 raise vlib.ModelFailure("calibration: libstdc++ std::chrono deviates from the Calendar spec "
